@@ -121,6 +121,13 @@ def jobs(pid, tier):
         J.append(Job('k10_addvar', dict(N=4 if q else 5, L=3), need_outcomes=['added', 'idempotent', 'refused']))
         J.append(Job('k9_undeclare', dict(N=4, L=3), need_outcomes=['removed', 'nothing_removed', 'refused']))
         J.append(Job('k9_undeclare', dict(N=3 if q else 5, L=4 if q else 3), need_outcomes=['removed', 'refused']))
+    if pid == 'C15':
+        J.append(Job('mdd_ops', dict(K=2 if q else 3, ops=['lemma', 'find_or_add', 'gc']),
+                     need_outcomes=['done:lemma', 'done:find_or_add', 'done:gc']))
+        J.append(Job('mdd_ops', dict(K=2, ops=['ite'], arities=[[2, 2]] if q else [[2, 2], [3, 2], [2, 3]]),
+                     need_outcomes=['done:ite']))
+        J.append(Job('mdd_ops', dict(K=1 if q else 2, ops=['apply'], arities=[[2, 2], [3, 2]]),
+                     need_outcomes=['done:apply']))
     if pid == 'C16':
         J.append(Job('dddmp', dict(M=2, nroots=1), need_outcomes=['loaded']))
         J.append(Job('dddmp', dict(M=3 if q else 4, nroots=2, headers=['v0gap', 'v3'] if q else ['v0', 'v0gap', 'v1', 'v3']),
